@@ -14,6 +14,8 @@ struct Scenario {
     inputs: Vec<Input>,
     die: Vec<usize>,
     reject: Vec<usize>,
+    /// inputs the real parser rejects by itself (no fault injection)
+    natural: Vec<usize>,
     threads: usize,
     perturb: Option<u64>,
     shuffle_seed: u64,
@@ -45,12 +47,13 @@ fn run_scenario(rep: &mut Report, tag: &str, sc: &Scenario, reqs: &mut Vec<Strin
     };
     let out = run_grcov(&cfg);
     let case = json!({"op": "faults", "threads": sc.threads, "args": args, "perturb": sc.perturb,
-        "die": sc.die, "reject": sc.reject, "shuffle_seed": sc.shuffle_seed,
+        "die": sc.die, "reject": sc.reject, "natural": sc.natural, "shuffle_seed": sc.shuffle_seed,
         "inputs": sc.inputs.iter().map(|i| json!({"name": i.name, "hex": hex(&i.bytes)})).collect::<Vec<_>>()});
     rep.case(
         &format!("{} {:?} {:?} {:?} {:?}", sc.threads, args, sc.perturb, sc.die, sc.reject),
-        !sc.die.is_empty() || !sc.reject.is_empty(),
+        !sc.die.is_empty() || !sc.reject.is_empty() || !sc.natural.is_empty(),
     );
+    rep.count(&format!("naturally_rejected={}", sc.natural.len()));
     rep.count(&format!("threads={}", sc.threads));
     rep.count(&format!("dies={}", sc.die.len()));
     rep.count(&format!("rejects={}", sc.reject.len()));
@@ -83,7 +86,7 @@ fn run_scenario(rep: &mut Report, tag: &str, sc: &Scenario, reqs: &mut Vec<Strin
                     .inputs
                     .iter()
                     .enumerate()
-                    .filter(|(i, _)| !sc.reject.contains(i))
+                    .filter(|(i, _)| !sc.reject.contains(i) && !sc.natural.contains(i))
                     .map(|(_, x)| x)
                     .collect();
                 let want = show_map(&aggregate(&kept));
@@ -117,29 +120,186 @@ fn run_scenario(rep: &mut Report, tag: &str, sc: &Scenario, reqs: &mut Vec<Strin
     }
 }
 
+/// Damages an input so that the real parser may reject it; true if it does (then the input
+/// contributes nothing), otherwise the input stays a valid one with its new content.
+fn corrupt(rng: &mut Rng, inp: &mut Input) -> bool {
+    if inp.format == "Info" {
+        let junk: &[&[u8]] = &[b"DA:1,x\n", b"DA:\n", b"BRDA:1,0\n", b"FN:x,f\n", b"DA:99999999999999999999,1\n", b"FNDA:1\n"];
+        let at = {
+            let nl: Vec<usize> = inp.bytes.iter().enumerate().filter(|(_, b)| **b == b'\n').map(|(i, _)| i + 1).collect();
+            if nl.is_empty() { 0 } else { *rng.pick(&nl) }
+        };
+        let j = rng.pick(junk).to_vec();
+        inp.bytes.splice(at..at, j);
+    } else {
+        let cut = rng.range(inp.bytes.len() as u64 / 2, inp.bytes.len() as u64 - 1) as usize;
+        inp.bytes.truncate(cut);
+        while inp.bytes.len() < 300 {
+            inp.bytes.push(b' ');
+        }
+    }
+    inp.id = fnv_id(inp.format, &inp.bytes);
+    let b = inp.bytes.clone();
+    let parsed = if inp.format == "Info" {
+        guarded(move || grcov::parse_lcov(b, true).ok()).ok().flatten()
+    } else {
+        guarded(move || grcov::parse_jacoco_xml_report(std::io::BufReader::new(std::io::Cursor::new(b))).ok()).ok().flatten()
+    };
+    match parsed {
+        Some(p) => {
+            inp.parsed = p;
+            false
+        }
+        None => {
+            inp.parsed = vec![];
+            true
+        }
+    }
+}
+
+/// The GCC path: every work item is a gcno file handed to the external `gcov`; an item whose
+/// gcov run fails (here: run data whose stamp does not match the notes) is rejected. Whatever
+/// order the items are picked up in, the report must be the one of the remaining programs.
+fn gcc_rejections(rep: &mut Report, rng: &mut Rng) {
+    use std::process::Command;
+    let n = rep.budget(5, 12);
+    for c in 0..n {
+        let root = rep.workdir.join(format!("gccrej{}", c));
+        let _ = std::fs::remove_dir_all(&root);
+        let all = root.join("all");
+        let good = root.join("good");
+        let m = rng.range(2, 5) as usize;
+        let mut broken = vec![];
+        let mut progs = vec![];
+        for j in 0..m {
+            let d = all.join(format!("p{}", j));
+            std::fs::create_dir_all(&d).unwrap();
+            let body = |extra: &str| format!(
+                "#include <stdlib.h>\nint g{j}(int x)\n{{\n  if (x > {})\n    return x + {};\n  return 0;\n}}\n{}int main(int argc, char **argv)\n{{\n  int n = argc > 1 ? atoi(argv[1]) : 0;\n  int r = g{j}(n);\n  for (int i = 0; i < n; i++)\n    r += i;\n  return r == 77;\n}}\n",
+                j % 3, j + 1, extra);
+            let src = format!("unit{}.c", j);
+            std::fs::write(d.join(&src), body("")).unwrap();
+            let cc = |d: &std::path::Path| Command::new("gcc").current_dir(d).args(["--coverage", "-O0", "-o", "prog", &src]).status().map(|s| s.success()).unwrap_or(false);
+            if !cc(&d) {
+                rep.notes.push("gcc failed on a generated program".into());
+                continue;
+            }
+            for _ in 0..rng.range(1, 3) {
+                let _ = Command::new("./prog").current_dir(&d).arg(rng.below(6).to_string()).status();
+            }
+            let breaks = j + 1 < m && rng.chance(1, 2) || (j == 0 && broken.is_empty());
+            if breaks {
+                // new notes (another stamp) beside the old run data
+                let keep: Vec<(std::path::PathBuf, Vec<u8>)> = std::fs::read_dir(&d).unwrap().flatten()
+                    .filter(|e| e.path().extension().map(|x| x == "gcda").unwrap_or(false))
+                    .map(|e| (e.path(), std::fs::read(e.path()).unwrap())).collect();
+                std::fs::write(d.join(&src), body(&format!("int extra{}(int y)\n{{\n  return y * 2;\n}}\n", j))).unwrap();
+                if cc(&d) {
+                    for (p, b) in keep {
+                        std::fs::write(p, b).unwrap();
+                    }
+                    broken.push(j);
+                }
+            }
+            let _ = std::fs::remove_file(d.join("prog"));
+            progs.push(j);
+        }
+        // the reference tree holds only the programs that were not broken
+        for &j in progs.iter().filter(|j| !broken.contains(j)) {
+            let from = all.join(format!("p{}", j));
+            let to = good.join(format!("p{}", j));
+            std::fs::create_dir_all(&to).unwrap();
+            for e in std::fs::read_dir(&from).unwrap().flatten() {
+                std::fs::copy(e.path(), to.join(e.file_name())).unwrap();
+            }
+        }
+        std::fs::create_dir_all(&good).unwrap();
+        let run = |dir: &std::path::Path, threads: usize| run_grcov(&RunCfg {
+            dir,
+            args: vec![".".into()],
+            threads,
+            perturb: None,
+            fault: None,
+            limit: Duration::from_secs(60),
+            extra: vec!["-t".into(), "lcov".into(), "--no-demangle".into()],
+        });
+        let reference = run(&good, 1);
+        let want = match (reference.exit, decode_lcov_report(&reference.stdout)) {
+            (Some(0), Ok(mm)) => show_map(&mm),
+            _ => {
+                rep.notes.push("gcc reference run failed".into());
+                continue;
+            }
+        };
+        let case = json!({"op": "gcc-rejected", "programs": m, "stamp_mismatch": broken});
+        for (r, threads) in [1usize, 1, 1, 2, 3].iter().enumerate() {
+            rep.case(&format!("gccrej {} {} {:?} {}", c, m, broken, r), !broken.is_empty());
+            rep.count(&format!("gcc.threads={}", threads));
+            let out = run(&all, *threads);
+            let rejected = out.stderr.matches("Error when running gcov").count();
+            rep.count(&format!("gcc.rejected_by_gcov={}", rejected.min(3)));
+            if out.exit != Some(0) {
+                rep.fail("oracle", None, format!("no worker died but grcov exited with {:?} on gcc data with a failing gcov run", out.exit), case.clone());
+                continue;
+            }
+            if rejected != broken.len() {
+                rep.count("gcc.broken_not_rejected");
+                continue;
+            }
+            match decode_lcov_report(&out.stdout) {
+                Ok(mm) => {
+                    let got = show_map(&mm);
+                    if got != want {
+                        rep.fail(
+                            "oracle",
+                            None,
+                            "an input whose gcov run failed still contributes to the report (it differs from the report of the other inputs alone)".into(),
+                            json!({"case": case, "threads": threads, "report": got, "report_without_rejected": want}),
+                        );
+                    }
+                }
+                Err(e) => rep.fail("oracle", None, format!("report is not valid lcov: {}", e), case.clone()),
+            }
+        }
+        let _ = std::fs::remove_dir_all(&root);
+    }
+}
+
 pub fn run(rep: &mut Report) {
     rep.rule = "input sets of 2-12 .info/.xml files; subsets of 0-3 inputs kill their worker and 0-2 are rejected \
-                by the parser; --threads in {1,2,3,4}; seeded perturbation; first the fixed scenarios in which \
+                by the hook, 0-2 more are damaged so that the real parser rejects them; a second stream feeds gcc-compiled \
+                programs of which some have run data that makes gcov fail; --threads in {1,2,3,4}; seeded perturbation; first the fixed scenarios in which \
                 every worker dies with more queued items than queue slots (the deadlock of the original code); \
                 non-trivial = at least one fault; distinct = distinct (inputs, faults, threads, order, seed)"
         .to_string();
     let mut rng = Rng::new(rep.seed ^ 0xC07);
     let mut reqs = vec![];
     let mut ctx = vec![];
+    gcc_rejections(rep, &mut rng.fork());
     // fixed scenarios: all workers die early, many items remain (witness of the repaired deadlock)
     for (t, (threads, k)) in [(1usize, 5usize), (1, 9), (2, 12), (3, 14)].iter().enumerate() {
         let inputs = gen_inputs(&mut rng, *k);
         // every input kills its worker: whichever items are picked up first, all workers die
         let die: Vec<usize> = (0..*k).collect();
-        let sc = Scenario { inputs, die, reject: vec![], threads: *threads, perturb: None, shuffle_seed: t as u64 };
+        let sc = Scenario { inputs, die, reject: vec![], natural: vec![], threads: *threads, perturb: None, shuffle_seed: t as u64 };
         run_scenario(rep, &format!("fixed{}", t), &sc, &mut reqs, &mut ctx);
     }
     let n = rep.budget(150, 20);
     for i in 0..n {
         let k = rng.range(2, 12) as usize;
-        let inputs = gen_inputs(&mut rng, k);
+        let mut inputs = gen_inputs(&mut rng, k);
+        let mut natural = vec![];
+        if rng.chance(1, 3) {
+            for _ in 0..rng.range(1, 2) {
+                let j = rng.below(k as u64) as usize;
+                if !natural.contains(&j) && corrupt(&mut rng, &mut inputs[j]) {
+                    natural.push(j);
+                }
+            }
+        }
         let threads = *rng.pick(&[1usize, 1, 2, 2, 3, 4]);
-        let mut idx: Vec<usize> = (0..k).collect();
+        let mut idx: Vec<usize> = (0..k).filter(|j| !natural.contains(j)).collect();
+        let k = idx.len();
         rng.shuffle(&mut idx);
         let nd = *rng.pick(&[0usize, 0, 1, 1, 2, 3]).min(&k);
         let nr = (*rng.pick(&[0usize, 1, 1, 2])).min(k - nd);
@@ -149,6 +309,7 @@ pub fn run(rep: &mut Report) {
             inputs,
             die,
             reject,
+            natural,
             threads,
             perturb: if rng.chance(1, 3) { None } else { Some(rng.next() % 100000) },
             shuffle_seed: rng.next(),
@@ -183,9 +344,9 @@ pub fn replay(rep: &mut Report, case: &serde_json::Value) {
         let name = i["name"].as_str().unwrap().to_string();
         let bytes = unhex(i["hex"].as_str().unwrap());
         let (format, parsed) = if name.ends_with(".xml") {
-            ("JacocoXml", grcov::parse_jacoco_xml_report(std::io::BufReader::new(std::io::Cursor::new(bytes.clone()))).unwrap())
+            ("JacocoXml", grcov::parse_jacoco_xml_report(std::io::BufReader::new(std::io::Cursor::new(bytes.clone()))).unwrap_or_default())
         } else {
-            ("Info", grcov::parse_lcov(bytes.clone(), true).unwrap())
+            ("Info", grcov::parse_lcov(bytes.clone(), true).unwrap_or_default())
         };
         inputs.push(Input { name, format, id: fnv_id(format, &bytes), bytes, parsed });
     }
@@ -194,6 +355,7 @@ pub fn replay(rep: &mut Report, case: &serde_json::Value) {
         inputs,
         die: idxs(&c["die"]),
         reject: idxs(&c["reject"]),
+        natural: idxs(&c["natural"]),
         threads: c["threads"].as_u64().unwrap() as usize,
         perturb: c["perturb"].as_u64(),
         shuffle_seed: c["shuffle_seed"].as_u64().unwrap_or(0),
